@@ -285,7 +285,8 @@ let kind5 model conds tuples atoms maxdepth subjects =
               | _ -> failwith "engine") (as_list engines) in
           if List.for_all (fun (_, ec, _) -> ec = 7) res then ()   (* request rejected by validation, by every engine *)
           else begin
-            let bad = List.filter (fun (_, ec, got) -> ec <> 6 && (ec <> 0 || got <> expected)) res in
+            (* 6 = not run, 4 = cut short by the deadline (inconclusive: not a complete set) *)
+            let bad = List.filter (fun (_, ec, got) -> ec <> 6 && ec <> 4 && (ec <> 0 || got <> expected)) res in
             if bad <> [] then begin
               let trig = lazy (List.fold_left (fun (a, b, c) o ->
                   let (oset, tr) = check_top m cs store subj pathx md fuel o rel in
@@ -305,7 +306,7 @@ let kind5 model conds tuples atoms maxdepth subjects =
                 else if fam = 2 && ec = 0 && loose_tuples && got = set_of (Lazy.force vstrict)
                 then knowns := ("lo_pipeline_strict_condition " ^ txt) :: !knowns
                 else if fam = 1 && subset && model_inter_diff m &&
-                        List.for_all (fun (ej, ec', got') -> engine_family ej = 1 || ec' = 6 || (ec' = 0 && got' = expected)) res
+                        List.for_all (fun (ej, ec', got') -> engine_family ej = 1 || ec' = 6 || ec' = 4 || (ec' = 0 && got' = expected)) res
                 then knowns := ("lo_optimised_misses_objects " ^ txt) :: !knowns
                 else props := (Printf.sprintf "%s [subset=%b dup_this=%b inter_diff=%b conds=%b loose=%b]" txt subset (dup_this m)
                                  (model_inter_diff m) (model_conditions m) loose_tuples) :: !props) bad
